@@ -191,6 +191,8 @@ func TestC01_Replicas(t *testing.T) {
 			for r := 0; r < replicas; r++ {
 				hh := h
 				hh.Genesis.NodeVariant = r
+				hh.Genesis.GhostRounds = r%2 == 1 // every other replica also lives through abandoned consensus rounds
+				hh.Genesis.SkipDecidedProcess = r%4 == 3 // and one of them never processes the decided proposal (missed round / block sync)
 				rec := &recorder{}
 				rs, tr, _, err := RunHistory(hh, rec)
 				if r == 0 && os.Getenv("VERIF_TRACE") != "" {
